@@ -49,6 +49,8 @@ def build_expr(af, e, pool):
         return unhex(e["v"])
     if t == "unary":                         # opt-in node kind (C01): -x, abs(x)
         x = build_expr(af, e["a"], pool)
+        if e["op"] in ("log", "log10"):      # af.Log(x) / af.Log10(x): ModifiedPrior forms computed with numpy
+            return af.Log(x) if e["op"] == "log" else af.Log10(x)
         return -x if e["op"] == "neg" else abs(x)
     if t == "arith":
         x = build_expr(af, e["l"], pool)
@@ -149,7 +151,7 @@ def abstract_model(af, obj, idmap):
                 "l": abstract_model(af, obj._left, idmap), "r": abstract_model(af, obj._right, idmap),
                 "keys": [k for k in obj.__dict__ if not k.startswith("_") and k != "id"]}
     if isinstance(obj, ModifiedPrior):           # -x, abs(x) (af.Log / af.Log10: op = the class name)
-        op = {"NegativePrior": "neg", "AbsolutePrior": "abs"}.get(type(obj).__name__, type(obj).__name__)
+        op = {"NegativePrior": "neg", "AbsolutePrior": "abs", "Log": "log", "Log10": "log10"}.get(type(obj).__name__, type(obj).__name__)
         return {"t": "unary", "op": op, "name": obj._prior_name, "a": abstract_model(af, obj.__dict__.get(obj._prior_name), idmap),
                 "keys": [k for k in obj.__dict__ if not k.startswith("_") and k != "id"]}
     if isinstance(obj, Model):
